@@ -19,6 +19,7 @@ func verifH_C20_reader() {
 	w.nfc = nfc
 	r := NewReader(verifNoStatus{}, nfc, nil)
 	verifWatch(r, &r.mu)
+	verifSerialMu = &r.mu
 	switch verifParam("method") {
 	case 0:
 		r.SkipPace()
